@@ -82,10 +82,10 @@ theorem expand_rejects_malformed (x : List UInt8) (e : Reject) (h : Spec.Bzip2.d
     rw [expand_sound x y hx] at h
     cases h
 
--- Non-vacuity: the hypothesis holds on a real file ("hello", `bzip2 -9`; kernel-evaluated in
--- Lemmas/ExpandHello.lean), and the conclusion is the reference's own verdict on it.
-example : Spec.Bzip2.decodeFile Spec.Bzip2.helloBz2 = .ok [104, 101, 108, 108, 111] :=
-  expand_sound _ _ Lemmas.ExpandHello.expandFile_hello
+-- Non-vacuity: the hypothesis holds on a real file ("a", `bzip2 -9`; the model kernel-evaluated
+-- in Lemmas/ExpandHello.lean), and the conclusion is the reference's own verdict on it.
+example : Spec.Bzip2.decodeFile Lemmas.ExpandHello.aBz2 = .ok [97] :=
+  expand_sound _ _ Lemmas.ExpandHello.expandFile_aBz2
 
 -- … and of the contrapositive: a header with nothing behind it.
 example : ∃ e', expandFile [0x42, 0x5A, 0x68, 0x39] = .error e' :=
